@@ -117,6 +117,130 @@ def defer_site_programs(functions: list[str]) -> list[tuple[str, str]]:
     return out
 
 
+# ------------------------------------------------------------------ error-path amplifier: the mismatch matrix
+MATRIX_DECLS = """\
+import sys
+import enum
+import dataclasses
+import functools
+from typing import (Any, Callable, Dict, Generic, List, Literal, NamedTuple, NewType, Optional, Protocol, Sequence, Tuple, Type,
+                    TypeVar, Union, overload, Iterable, Awaitable, ClassVar, Final)
+from typing_extensions import TypedDict, ParamSpec, Concatenate
+
+T = TypeVar("T")
+class Base:
+    ident: int = 0
+    def close(self, hard: bool = False) -> None: ...
+class Sub(Base):
+    name: str = ""
+B = TypeVar("B", bound=Base)
+V = TypeVar("V", int, str)
+P = ParamSpec("P")
+
+class Closeable(Protocol):
+    def close(self) -> None: ...
+class Named(Protocol):
+    name: str
+class Sized2(Protocol[T]):
+    def size(self, of: T) -> int: ...
+    @property
+    def first(self) -> T: ...
+class Callback(Protocol):
+    def __call__(self, x: int, *, key: str = ...) -> str: ...
+class ClsProto(Protocol):
+    attr: ClassVar[int]
+    @classmethod
+    def make(cls) -> "ClsProto": ...
+class Movie(TypedDict):
+    title: str
+    year: int
+class Draft(TypedDict, total=False):
+    title: str
+Point = NamedTuple("Point", [("x", int), ("y", str)])
+class Pair(NamedTuple):
+    a: int
+    b: "Pair | None" = None
+Color = enum.Enum("Color", "RED GREEN")
+class Shade(enum.IntEnum):
+    DARK = 1
+UserId = NewType("UserId", int)
+@dataclasses.dataclass
+class Data(Generic[T]):
+    item: T
+    items: List[T] = dataclasses.field(default_factory=list)
+class Box(Generic[B]):
+    def __init__(self, content: B) -> None:
+        self.content = content
+    def get(self) -> B:
+        return self.content
+@overload
+def ov(x: int) -> int: ...
+@overload
+def ov(x: str, y: bytes = ...) -> str: ...
+def ov(x: Any, y: Any = None) -> Any:
+    return x
+def deco(f: Callable[P, T]) -> Callable[Concatenate[int, P], T]: ...
+@deco
+def decorated(a: str, *, b: bool = False) -> bytes: ...
+async def coro(x: int) -> str: ...
+def gen_fn() -> Iterable[int]:
+    yield 1
+part = functools.partial(ov, 1)
+"""
+
+# the typed universe: (label, type as written, a value expression of that type — valid inside `matrix`)
+MATRIX_UNIVERSE = [
+    ("int", "int", "1"), ("str", "str", "'s'"), ("none", "None", "None"), ("opt-base", "Optional[Base]", "ob"),
+    ("union", "Union[int, Sub, None]", "un"), ("literal", "Literal['a', 1]", "lit"), ("base", "Base", "Base()"), ("sub", "Sub", "Sub()"),
+    ("class-obj", "Type[Base]", "Base"), ("sub-class-obj", "Type[Sub]", "Sub"), ("type-T", "Type[T]", "ct"), ("type-B", "Type[B]", "cb"),
+    ("tv-T", "T", "t"), ("tv-B", "B", "b"), ("tv-V", "V", "v"), ("proto", "Closeable", "cl"), ("attr-proto", "Named", "nm"),
+    ("opt-proto", "Optional[Named]", "onm"), ("gen-proto", "Sized2[int]", "sz"), ("callback", "Callback", "cbk"),
+    ("cls-proto", "ClsProto", "cp"), ("type-proto", "Type[Closeable]", "tcl"), ("typeddict", "Movie", "mv"),
+    ("typeddict-partial", "Draft", "{'title': 't'}"), ("td-class", "Type[Movie]", "Movie"), ("namedtuple", "Point", "Point(1, 'a')"),
+    ("nt-class", "Type[Point]", "Point"), ("nt-rec", "Pair", "Pair(1)"), ("enum", "Color", "Color.RED"), ("enum-class", "Type[Color]", "Color"),
+    ("intenum", "Shade", "Shade.DARK"), ("newtype", "UserId", "UserId(1)"), ("dataclass", "Data[int]", "Data(1)"),
+    ("dataclass-cls", "Type[Data[Any]]", "Data"), ("box", "Box[Sub]", "Box(Sub())"), ("overloaded", "Callable[[int], int]", "ov"),
+    ("callable", "Callable[[int, str], bool]", "fn"), ("callable-any", "Callable[..., Any]", "fa"), ("decorated", "Callable[[int, str], bytes]", "decorated"),
+    ("coroutine-fn", "Callable[[int], Awaitable[str]]", "coro"), ("partial", "functools.partial[int]", "part"), ("module", "Any", "sys"),
+    ("tuple", "Tuple[int, str]", "(1, 'a')"), ("var-tuple", "Tuple[Base, ...]", "vt"), ("list", "List[Sub]", "[Sub()]"),
+    ("dict", "Dict[str, Base]", "{'k': Base()}"), ("seq", "Sequence[Optional[int]]", "sq"), ("lambda", "Callable[[], None]", "lambda: None"),
+    ("generator", "Iterable[int]", "gen_fn()"), ("bound-method", "Callable[[], None]", "Base().close"),
+    ("any", "Any", "anything"), ("object", "object", "object()"), ("type-any", "type", "type"),
+]
+
+
+def mismatch_matrix(rng, nvals: int = 12, nparams: int = 9) -> tuple[str, str]:
+    """(program, label): every drawn value of a small typed universe is passed to every drawn parameter type of that universe — as
+    a call argument, an assignment, a return value, a keyword argument, an element of a container and through `*args` —
+    so that every incompatibility message and its notes are rendered"""
+    vals = rng.sample(MATRIX_UNIVERSE, min(nvals, len(MATRIX_UNIVERSE)))
+    params = rng.sample([u for u in MATRIX_UNIVERSE if u[0] not in ("module", "any")], nparams)
+    out = [MATRIX_DECLS]
+    for i, (lab, typ, _v) in enumerate(params):
+        out.append(f"def want_{i}(x: {typ}, *rest: {typ}, key: Optional[{typ}] = None) -> None: ...  # {lab}")
+    sig = ", ".join(f"{v}: {t}" for (_l, t, v) in MATRIX_UNIVERSE if v.isidentifier() and v not in
+                    ("Base", "Sub", "Movie", "Point", "Color", "Data", "ov", "decorated", "coro", "part", "sys", "type", "None"))
+    out.append(f"\ndef matrix({sig}) -> None:")
+    for (vl, _vt, v) in vals:
+        for i, (pl, pt, _pv) in enumerate(params):
+            form = rng.random()
+            if form < 0.55:
+                out.append(f"    want_{i}({v})  # {vl} -> {pl}")
+            elif form < 0.7:
+                out.append(f"    _a_{vl.replace('-', '_')}_{i}: {pt} = {v}")
+            elif form < 0.8:
+                out.append(f"    want_{i}(*[{v}], key={v})")
+            elif form < 0.9:
+                out.append(f"    _l_{vl.replace('-', '_')}_{i}: List[{pt}] = [{v}]")
+            else:
+                out.append(f"    _d_{vl.replace('-', '_')}_{i}: Dict[str, {pt}] = {{'k': {v}}}")
+    # returns and attribute stores
+    for i, (pl, pt, _pv) in enumerate(params[:4]):
+        v = rng.choice(vals)[2]
+        out.append(f"\ndef ret_{i}({sig}) -> {pt}:\n    return {v}")
+    return "\n".join(out) + "\n", "matrix:" + "+".join(sorted(v[0] for v in vals))[:80]
+
+
 # ------------------------------------------------------------------ partial types refined in nested places
 PARTIAL_INITS = [("[]", "list"), ("{}", "dict"), ("set()", "set"), ("None", "none"), ("dict()", "dict"), ("list()", "list")]
 WRAPPERS = ["[{S}]", "({S}, {V})[1]", "({S},)", "{0: {S}}", "[{S}, {V}]", "str({S})", "({S} or {V})", "[{S} for _ in range(2)]",
